@@ -247,9 +247,28 @@ pub struct SubFileSizes {
 
 impl SubFileSizes {
     /// Calculate the valid value of lf, given all of the other fields.
+    ///
+    /// The TFM format cannot represent a file of more than `i16::MAX` words;
+    /// if the other fields add up to more than that, `i16::MAX` is returned.
     pub fn valid_lf(&self) -> i16 {
+        self.valid_lf_wide().try_into().unwrap_or(i16::MAX)
+    }
+
+    /// Same as [`Self::valid_lf`], but calculated in an integer type that cannot
+    /// overflow, whatever the values of the other (possibly invalid) fields.
+    pub(crate) fn valid_lf_wide(&self) -> i32 {
         let s = self;
-        6 + s.lh + (s.ec - s.bc + 1) + s.nw + s.nh + s.nd + s.ni + s.nl + s.nk + s.ne + s.np
+        let w = i32::from;
+        6 + w(s.lh)
+            + (w(s.ec) - w(s.bc) + 1)
+            + w(s.nw)
+            + w(s.nh)
+            + w(s.nd)
+            + w(s.ni)
+            + w(s.nl)
+            + w(s.nk)
+            + w(s.ne)
+            + w(s.np)
     }
 }
 
@@ -445,7 +464,7 @@ impl<'a> RawFile<'a> {
                 warnings,
             );
         }
-        if s.lf != s.valid_lf() {
+        if s.lf as i32 != s.valid_lf_wide() {
             return (
                 Err(DeserializationError::InconsistentSubFileSizes(s.clone())),
                 warnings,
